@@ -19,7 +19,8 @@ def gen_scenario(rng):
     ss = rng.choice([0, 1, 1])
     pres = rng.choice([0, 1])
     cprog = rng.choice(["c", "cs", "cs", "csu"])
-    chains = [["s:C", "r:cing", "r:conn"] + (["r:unsub"] if cprog == "csu" else [])]
+    jl = 1 if ss and rng.random() < 0.4 else 0
+    chains = [["s:C", "r:cing"] + (["r:join"] if jl else []) + ["r:conn"] + (["r:unsub"] if cprog == "csu" else [])]
     others = []
     if rng.random() < 0.6:
         others.append(["s:X"] + ["r:unsub"] * rng.randint(0, 2) + ["r:disc"])
@@ -29,6 +30,8 @@ def gen_scenario(rng):
         others.append(["s:T", "r:alive", "r:alive"][: rng.randint(2, 3)])
     if rng.random() < 0.35:
         others.append(["s:U", "r:unsub"])
+    if rng.random() < 0.25:
+        others.append(["s:V", "r:unsub", "r:unsub"])
     if rng.random() < 0.35:
         tail = ["w:S"] if rng.random() < 0.5 else []
         if rng.random() < 0.6:
@@ -50,7 +53,12 @@ def gen_scenario(rng):
             k = rng.choice(cand)
         seq.append(chains[k][idx[k]])
         idx[k] += 1
-    return [f"reset ss={ss} pres={pres} cprog={cprog}", "sched " + " ".join(seq)]
+    if jl and rng.random() < 0.5:
+        # a close that runs to completion while the connect thread sits between connectCmd and triggerConnect
+        closer = rng.choice(["X", "E", "S"])
+        seq = ["s:C", "r:cing", "a:join", f"s:{closer}", f"w:{closer}", "r:join"] + \
+            [l for l in seq if l not in ("s:C", "r:cing", "r:join", f"s:{closer}")]
+    return [f"reset ss={ss} pres={pres} cprog={cprog} jl={jl}", "sched " + " ".join(seq)]
 
 
 HTTP_OPS = ["http kind=websocket order=after", "http kind=websocket order=racing", "http kind=sse order=after",
@@ -80,6 +88,16 @@ def oracle_sched(reset, sched, out):
             if cplus is None or i < cplus:
                 return f"callback {e[:-1]} ran before/without the connect callback", \
                     {"kind": "callback-before-connect", "callback": e.split(":")[0].rstrip("+")}
+    if cplus is not None:
+        # close() and triggerConnect are serialised by connectMu and closed is absorbing (model: `Inv.incb`,
+        # `shutdown_final_partial`): once a close() call has returned the connect callback must not start
+        for closer in ("end:X", "end:E", "shutdown-done"):
+            p = first(closer)
+            if closer == "shutdown-done" and kv.get("after", "-").split("/")[0] != "closed":
+                continue       # Shutdown did not reach this client (not in the hub): that is finding C08-4's territory
+            if p is not None and p < cplus and first("start:C") is not None and first("start:C") < p:
+                return f"connect callback started after {closer.split(':')[-1]} had closed the connection", \
+                    {"kind": "connect-after-close"}
     if len(pos.get("disconnect+", [])) > 1:
         return "disconnect callback ran more than once", {"kind": "disconnect-twice"}
     dplus = first("disconnect+")
@@ -102,7 +120,7 @@ def oracle_sched(reset, sched, out):
             if n != 0:
                 return f"unsubscribe callback for {sub} which was never established", {"kind": "unsub-unestablished", "sub": sub}
             continue
-        enders = enders_all + (["start:U"] if (sub == "s1" or "ss=0" in reset) else [])
+        enders = enders_all + (["start:U", "start:V"] if (sub == "s1" or "ss=0" in reset) else [])
         starts = [first(x) for x in enders if first(x) is not None]
         if cplus is not None and all(cplus < s for s in starts) and n != 1:
             return f"established subscription {sub} ended but its unsubscribe callback ran {n} times", \
@@ -164,7 +182,7 @@ def run(ctx):
             ops += f["replay"]["ops"]
         ops += [l.rstrip("\n") for l in open(os.path.join(here, "corpus.ops")) if l.strip() and not l.startswith("#")]
         ops += HTTP_OPS
-        for _ in range(ctx.scale(250, 6000)):
+        for _ in range(ctx.scale(200, 4000)):
             ops += gen_scenario(ctx.rng)
     env = {"VERIF_C08_STRICT": "1"} if ctx.replay else None
     impl = ctx.go_run(binary, "TestVerifC08", ops, env=env)
